@@ -1,6 +1,7 @@
 """C14 — @profile is inert unless profiling was requested.
 Proof: Props/C14.lean (requested_iff, requested_active, enable_then_active, disable_then_inert, single_profiler,
-decorate_result, kernprof_handover, show_writes_exactly) over Model.Explicit; translator: the five GlobalProfiler methods
+decorate_result, kernprof_handover, show_writes_exactly) over Model.Explicit; kernprof_hands_over_before_program /
+kernprof_builtin_before_program over the control skeleton of kernprof._main dumped from the tree (every option set, every crash point); translator: the five GlobalProfiler methods
 and the tables (_FALSY_STRINGS, environ/cli flags, the outputs of show()) are re-emitted from the tree on every run and
 Bridge/Explicit.lean proves emitted = model.
 Tie: K14 — real GlobalProfiler objects driven in-process through histories vs the model driver; show() in a scratch directory
@@ -143,6 +144,83 @@ def run_exit(build, name, env, argv, pre, post):
         shutil.rmtree(d, ignore_errors=True)
 
 
+KSCRIPT = '''\
+import sys
+from line_profiler import profile
+@profile
+def f(n):
+    return sum(range(n))
+class K:
+    @profile
+    def g(self, n):
+        return f(n) + 1
+K().g(10)
+f(3)
+print('LPV14', type(profile._profile).__name__, profile.enabled, hasattr(f, '__wrapped__'), hasattr(K.g, '__wrapped__'), file=sys.stderr)
+'''
+
+KOPTS = [[], ['-l'], ['-b'], ['-l', '-b'], ['-l', '-p', 'prog.py'], ['-o', 'res.out'], ['-l', '-o', 'res.out'], ['-i', '1'], ['-l', '-i', '1'], ['-b', '-i', '1']]
+
+
+def kern_cases(quick, rng):
+    """(opts, LINE_PROFILE, program argv, as_module): the explicit decorator in a program run by the real kernprof, in every run mode"""
+    out = []
+    for opts in KOPTS:
+        for env in (None, '1', '0'):
+            for argv in ([], ['--line-profile']):
+                for mod in (False, True):
+                    out.append((opts, env, argv, mod))
+    return out if not quick else rng.sample(out, 24) + [([], '1', [], False), ([], None, ['--line-profile'], False)]
+
+
+def run_kern(build, opts, env, argv, mod):
+    d = tempfile.mkdtemp(prefix='c14k-', dir=SCRATCH_ROOT)
+    try:
+        with open(os.path.join(d, 'prog.py'), 'w') as fh:
+            fh.write(KSCRIPT)
+        e = real_env(build)
+        e.pop('LINE_PROFILE', None)
+        if env is not None:
+            e['LINE_PROFILE'] = env
+        opts = ['prog' if (mod and o == 'prog.py') else o for o in opts]
+        cmd = [PY, '-m', 'kernprof'] + opts + (['-m', 'prog'] if mod else ['prog.py']) + argv
+        p = subprocess.run(cmd, cwd=d, env=e, capture_output=True, text=True, timeout=180)
+        files = sorted(f for f in os.listdir(d) if f != 'prog.py' and f != '__pycache__')
+        outfile = 'res.out' if '-o' in opts else ('prog' if mod else 'prog.py') + ('.lprof' if '-l' in opts else '.prof')
+        seen = None
+        if outfile in files:
+            if '-l' in opts:
+                code = ('import sys,line_profiler;s=line_profiler.load_stats(sys.argv[1]);'
+                        'print(sorted((k[2], sum(h for (_l,h,_t) in v)) for k, v in s.timings.items()))')
+            else:
+                code = ('import sys,pstats;s=pstats.Stats(sys.argv[1]);'
+                        'print(sorted((k[2], v[0]) for k, v in s.stats.items() if k[0].endswith("prog.py")))')
+            q = subprocess.run([PY, '-c', code, outfile], cwd=d, env=e, capture_output=True, text=True)
+            seen = q.stdout.strip() or q.stderr[-200:]
+        marker = [l for l in p.stderr.splitlines() if l.startswith('LPV14 ')]
+        return {'files': files, 'outfile': outfile, 'rc': p.returncode, 'seen': seen, 'reports': p.stdout.count('Timer unit:'),
+                'decorator': marker[0][6:] if marker else None, 'stderr_tail': p.stderr[-300:]}
+    finally:
+        shutil.rmtree(d, ignore_errors=True)
+
+
+def kern_check(opts, r):
+    """the property under kernprof: the decorator hands its functions to kernprof's profiler (so they are in kernprof's output),
+    creates no profiler of its own and writes no output of its own"""
+    if r['rc'] != 0:
+        return 'kernprof exited with %s' % r['rc']
+    if r['files'] != [r['outfile']]:
+        return "files written: %s (expected only kernprof's %s)" % (r['files'], r['outfile'])
+    if r['reports']:
+        return "a line-profile report was printed although -v was not given (the decorator's own exit report)"
+    kind = 'LineProfiler' if '-l' in opts else 'ContextualProfile'
+    if r['decorator'] != '%s True True True' % kind:
+        return "decorator state inside the program: %r (expected kernprof's %s, enabled, functions wrapped)" % (r['decorator'], kind)
+    if "('f', 2)" not in (r['seen'] or '') or "('g', 1)" not in (r['seen'] or ''):
+        return "kernprof's output does not hold the decorated functions: %s" % r['seen']
+    return None
+
+
 def expected_files(prefix, cfg):
     out = []
     if cfg.get('text', True):
@@ -259,11 +337,20 @@ def run(ctx):
         if not ok:
             ctx.fail('at interpreter exit the explicit profiler did not write exactly the expected outputs',
                      {'finding_class': None, 'exit_case': name, 'env': env, 'argv': argv, 'pre': pre, 'post': post, 'expected': exp, 'real': r})
+    # the explicit decorator inside programs run by the real kernprof
+    kcs = kern_cases(ctx.quick, ctx.rng.fork('kern'))
+    with cf.ThreadPoolExecutor(max_workers=12) as ex:
+        kres = list(ex.map(lambda c: run_kern(build, *c), kcs))
+    for (opts, env, argv, mod), r in zip(kcs, kres):
+        why = kern_check(opts, r)
+        if why:
+            ctx.fail('under kernprof: ' + why, {'finding_class': None, 'kern_case': [opts, env, argv, mod], 'real': r})
+    ctx.coverage['kernprof_runs'] = len(kcs)
     ctx.coverage.update({
-        'evaluations': len(cases) + len(shows) + len(ecs), 'distinct_nontrivial': len(nontrivial),
+        'evaluations': len(cases) + len(shows) + len(ecs) + len(kcs), 'distinct_nontrivial': len(nontrivial),
         'rule': '%d LINE_PROFILE spellings (unset, empty, every letter case of the falsy words, near misses, non-ASCII look-alikes) x %d argv shapes '
                 'x one decoration; every history of length <= %d over {decorate, enable, enable(prefix), disable} in 5 environments; random '
-                'histories with kernprof\'s hook; show() under all 16 write_config subsets x 2 prefixes; %d real interpreter exits. '
+                'histories with kernprof\'s hook; show() under all 16 write_config subsets x 2 prefixes; %d real interpreter exits; the decorator in a program run by the real kernprof (10 option sets x LINE_PROFILE x --line-profile x script/-m). '
                 'non-trivial = requested, or the history contains an explicit enable/disable/kernprof op' % (len(ENVS), len(ARGVS), maxlen, len(ecs)),
         'traces_validated_against_impl': len(cases) + len(shows) - kdiff, 'correspondence_disagreements': kdiff,
         'lower_probe_code_points': 0x110000 - 128 - 2048, 'exit_cases': [e[0] for e in ecs], 'exhaustive': True})
@@ -286,6 +373,9 @@ def replay(ctx, path):
                           'model': lean_driver('explicit', model_lines(w['case']))}, indent=1))
     elif 'show' in w:
         print(json.dumps(run_worker(build, 'c14_worker.py', {'shows': [w['show']]}), indent=1))
+    elif 'kern_case' in w:
+        r = run_kern(build, *w['kern_case'])
+        print(json.dumps({'real': r, 'oracle': kern_check(w['kern_case'][0], r)}, indent=1))
     elif 'exit_case' in w:
         print(json.dumps(run_exit(build, w['exit_case'], w['env'], w['argv'], w['pre'], w['post']), indent=1))
     return 0
